@@ -169,3 +169,95 @@ def arg_provenance(body, t, i, extra_transparent=()):
 
 def fmt_leaves(leaves):
     return sorted("%s:%s" % (l[0], l[1]) for l in leaves)
+
+
+def must_closure(prog, base_names, depth=6):
+    """Greatest set M of functions such that every path to an Ok exit crosses the Ok-continuation
+    of a call to `base_names` or to a member of M (wrapper rule, Min et al.).  Candidates are the
+    functions within `depth` call-graph steps (backwards) of a base call."""
+    base_names = set(base_names)
+    # candidate set: backward closure
+    cand = set()
+    frontier = set(base_names)
+    for _ in range(depth):
+        nxt = set()
+        for (b, bi, t) in prog.who_calls(frontier):
+            if b.id not in cand:
+                cand.add(b.id)
+                nxt.add(b.id)
+                # calling an impl method through the trait: the trait method name is also a way in
+                tm = prog.impl_method_of.get(b.id)
+                if tm:
+                    nxt.add(tm)
+        if not nxt:
+            break
+        frontier = nxt
+    M = set(cand)
+    changed = True
+    while changed:
+        changed = False
+        for fid in sorted(M):
+            body = prog.body(fid)
+            names = set(base_names) | M
+            # a trait-method call counts only if every workspace impl is in M
+            A = []
+            for b, t in body.calls():
+                tg = prog.call_targets(t)
+                hit = bool(tg & base_names)
+                if not hit:
+                    if prog.is_unresolved_trait_call(t):
+                        impls = [i for i in prog.impls_of_method(t["f"]) if i in prog.bodies]
+                        hit = bool(impls) and all(i in M for i in impls)
+                    else:
+                        hit = bool(tg & M)
+                if hit:
+                    evs, _ = ok_continuation_events(body, b)
+                    A.extend(evs)
+            if not A or must_pass(body, A, exits="ok"):
+                M.discard(fid)
+                changed = True
+    return M
+
+
+def rule_between(rep, prog, rule, fid, start_names, a_names, b_names, s_what, a_what, b_what, key=None,
+                 to_ok_exit=False):
+    """every path from (the normal return of) a call to start_names to a call of b_names (or to an
+    Ok exit) crosses the Ok-continuation of a call to a_names."""
+    body = get_body(rep, prog, rule, fid)
+    if body is None:
+        return False
+    key = key or "%s: after %s, %s before %s" % (short(fid), s_what, a_what, b_what)
+    s_calls = calls_to(prog, body, start_names)
+    a_calls = calls_to(prog, body, a_names)
+    b_calls = calls_to(prog, body, b_names) if not to_ok_exit else []
+    for nm, cs in ((s_what, s_calls), (a_what, a_calls)) + (() if to_ok_exit else ((b_what, b_calls),)):
+        if not cs:
+            rep.fail(rule, key, "cannot establish: no call to %s in %s" % (nm, fid), site=body.span)
+            return False
+    A, _ = ok_events_of_calls(prog, body, a_names)
+    starts = []
+    for b, t in s_calls:
+        starts.extend(body.succ(b))
+    if to_ok_exit:
+        bad = must_pass(body, A, exits="ok", starts=tuple(starts))
+        if bad:
+            p = witness_path(body, bad[0], A + [Ev(x, "enter") for x in body.error_blocks()], starts=tuple(starts))
+            rep.fail(rule, key, "after %s an Ok exit is reachable without passing the Ok-continuation of %s" % (s_what, a_what),
+                     site=site(body, bad[0]), path=path_spans(body, p))
+            return False
+    else:
+        reached = reach_positions(body, A, starts=tuple(starts))
+        for b, t in b_calls:
+            if b in reached and reached[b] >= len(body.stmts(b)):
+                p = witness_path(body, b, A, starts=tuple(starts))
+                rep.fail(rule, key, "after %s, %s is reachable without passing the Ok-continuation of %s" % (s_what, b_what, a_what),
+                         site=site(body, b), path=path_spans(body, p))
+                return False
+    rep.ok(rule, key, "every path from %s to %s crosses the Ok-continuation of %s" % (s_what, b_what, a_what),
+           site=site(body, s_calls[0][0]))
+    return True
+
+
+def rule_only_after(rep, prog, rule, fid, a_names, b_names, a_what, b_what, key=None):
+    """alias of rule_precede with Ok-continuation: B only after A succeeded"""
+    return rule_precede(rep, prog, rule, fid, a_names, b_names, a_what, b_what, a_ok=True, key=key)
